@@ -48,6 +48,8 @@ type Cluster struct {
 	// PromptUse: a generating client uses the account at once (see spawnGenerate).
 	PromptUse  bool
 	realSender bool
+	shareMu    sync.Mutex
+	sentShares map[string]uint64 // share handed to the real sender -> identifier of the participant it was computed for
 	// OmitPassphrase: generation requests of clients carry no passphrase (the configured one is used).
 	OmitPassphrase bool
 	rc             *RunCtx
@@ -183,7 +185,7 @@ func (c *Cluster) startNode(n *Node, dir string) {
 				if err != nil {
 					return nil, err
 				}
-				snd = rs
+				snd = &recordingSender{Service: rs, c: c}
 			}
 			return standardprocess.New(inst.Ctx,
 				standardprocess.WithChecker(inst.Checker),
@@ -620,4 +622,27 @@ func (tr *Transport) CanonicalLog() []string {
 	out := append([]string{}, tr.Log...)
 	sort.Strings(out)
 	return out
+}
+
+// recordingSender notes, for every contribution an instance hands to its (real) sender, whom the share was computed for.
+type recordingSender struct {
+	sender.Service
+	c *Cluster
+}
+
+func (r *recordingSender) SendContribution(ctx context.Context, recipient *core.Endpoint, account string, secret bls.SecretKey, vVec []bls.PublicKey) (bls.SecretKey, []bls.PublicKey, error) {
+	r.c.shareMu.Lock()
+	if r.c.sentShares == nil {
+		r.c.sentShares = map[string]uint64{}
+	}
+	r.c.sentShares[string(secret.Serialize())] = recipient.ID
+	r.c.shareMu.Unlock()
+	return r.Service.SendContribution(ctx, recipient, account, secret, vVec)
+}
+
+// shareMeantFor returns the participant a share seen on the wire was computed for (0: not a share any sender handed over).
+func (c *Cluster) shareMeantFor(secret []byte) uint64 {
+	c.shareMu.Lock()
+	defer c.shareMu.Unlock()
+	return c.sentShares[string(secret)]
 }
